@@ -409,6 +409,20 @@ impl HnswIndex {
         self.nodes.read().get(&id).map(|n| n.vector.clone())
     }
 
+    /// Verification hook: the layered graph as it is (entry point, top level, and the
+    /// neighbour lists of every node per level), so an external model can run the same search.
+    #[cfg(grafeodb_grafeo_verif)]
+    #[must_use]
+    pub fn verif_dump(&self) -> (Option<NodeId>, usize, Vec<(NodeId, Vec<Vec<NodeId>>)>) {
+        let nodes = self.nodes.read();
+        let mut all: Vec<(NodeId, Vec<Vec<NodeId>>)> = nodes
+            .iter()
+            .map(|(id, n)| (*id, n.neighbors.clone()))
+            .collect();
+        all.sort_by_key(|(id, _)| *id);
+        (*self.entry_point.read(), *self.max_level.read(), all)
+    }
+
     /// Returns true if the index contains a vector with the given ID.
     #[must_use]
     pub fn contains(&self, id: NodeId) -> bool {
